@@ -6,6 +6,10 @@ open Labella Labella.Parse Labella.Calendar
 
 def okC (b : Bool) : String := if b then "ok" else "fail"
 
+/-- an instant that may have come back non-integral (sub-millisecond) from a faulty conversion: `none` marks it -/
+def parseInstant (s : String) : Option (Option Int) :=
+  (parseRat s).map (fun r => if r.den == 1 then some r.num else none)
+
 def parseUnit (s : String) : Option TUnit :=
   match s with
   | "second" => some .second | "minute" => some .minute | "hour" => some .hour | "day" => some .day
@@ -18,10 +22,10 @@ def calCmd (f : List String) : Option String :=
     let u ← parseUnit u
     let t ← parseInt t
     let k ← parseInt k
-    let fl ← parseInt fl; let ce ← parseInt ce; let ro ← parseInt ro; let off ← parseInt off; let nu ← parseInt nu
+    let fl ← parseInstant fl; let ce ← parseInstant ce; let ro ← parseInstant ro; let off ← parseInstant off; let nu ← parseInstant nu
     let mf := floorU u t
     let spec := isBoundary u mf && decide (mf ≤ t) && isBoundary u (ceilU u t) && decide (t ≤ ceilU u t)
-    some s!"cal floor={okC (fl == mf)} ceil={okC (ce == ceilU u t)} round={okC (ro == roundU u t)} offset={okC (off == stepU u mf k)} number={okC (nu == numberU u t)} model={okC spec} onb={if t == mf then 1 else 0}"
+    some s!"cal floor={okC (fl == some mf)} ceil={okC (ce == some (ceilU u t))} round={okC (ro == some (roundU u t))} offset={okC (off == some (stepU u mf k))} number={okC (nu == some (numberU u t))} model={okC spec} onb={if t == mf then 1 else 0}"
   | _ => none
 
 /-- `calrange|unit|t0|t1|dt|ticks` -/
@@ -30,10 +34,12 @@ def calRangeCmd (f : List String) : Option String :=
   | [u, t0, t1, dt, l] => do
     let u ← parseUnit u
     let t0 ← parseInt t0; let t1 ← parseInt t1; let dt ← parseInt dt
-    let l ← parseList "," parseInt l
+    let l ← parseList "," parseInstant l
+    let integral := l.all (·.isSome)
+    let l := l.filterMap id
     let m := rangeU u t0 t1 dt
     let spec := m.all (fun t => isBoundary u t && decide (t0 ≤ t) && decide (t < t1)) && strictlyIncreasingB m
-    some s!"calrange same={okC (l == m)} model={okC spec} n={m.length}"
+    some s!"calrange same={okC (integral && l == m)} model={okC spec} n={m.length}"
   | _ => none
 
 /-- `tticks|d0|d1|m|ticks` -/
@@ -41,13 +47,15 @@ def tticksCmd (f : List String) : Option String :=
   match f with
   | [d0, d1, m, l] => do
     let d0 ← parseInt d0; let d1 ← parseInt d1; let m ← parseRat m
-    let l ← parseList "," parseInt l
+    let l ← parseList "," parseInstant l
+    let integral := l.all (·.isSome)
+    let l := l.filterMap id
     let mt := ticks d0 d1 m
     let meth := match tickMethod (min d0 d1) (max d0 d1) m with
       | .ms _ => "ms"
       | .cal u s => (repr u).pretty ++ "/" ++ showRat s
     let tie := tickTie (min d0 d1) (max d0 d1) m
-    some s!"tticks same={if tie then "tie" else okC (l == mt)} prop={okC (ticksOKB d0 d1 m l)} model={okC (ticksOKB d0 d1 m mt)} n={mt.length} method={meth}"
+    some s!"tticks same={if tie then "tie" else okC (integral && l == mt)} prop={okC (integral && ticksOKB d0 d1 m l)} model={okC (ticksOKB d0 d1 m mt)} n={mt.length} method={meth}"
   | _ => none
 
 /-- `tnice|d0|d1|m|n0|n1` -/
@@ -55,10 +63,12 @@ def tniceCmd (f : List String) : Option String :=
   match f with
   | [d0, d1, m, n0, n1] => do
     let d0 ← parseInt d0; let d1 ← parseInt d1; let m ← parseRat m
-    let n0 ← parseInt n0; let n1 ← parseInt n1
+    let n0 ← parseInstant n0; let n1 ← parseInstant n1
+    let integral := n0.isSome && n1.isSome
+    let n0 := n0.getD 0; let n1 := n1.getD 0
     let r := nice d0 d1 m
     let tie := tickTie (min d0 d1) (max d0 d1) m
-    some s!"tnice same={if tie then "tie" else okC (r == (n0, n1))} prop={okC (niceOKB d0 d1 m n0 n1)} model={okC (niceOKB d0 d1 m r.1 r.2)} moved={if r == (d0, d1) then 0 else 1}"
+    some s!"tnice same={if tie then "tie" else okC (integral && r == (n0, n1))} prop={okC (integral && niceOKB d0 d1 m n0 n1)} model={okC (niceOKB d0 d1 m r.1 r.2)} moved={if r == (d0, d1) then 0 else 1}"
   | _ => none
 
 /-- `tscale|d0|d1|r0|r1|t|y|tinv` : time scale on [d0,d1] (ms) → [r0,r1]; y = scale(t) as observed; tinv = invert(y) in ms -/
